@@ -478,4 +478,144 @@ def readNodes (t : NodeTabs) (nodeIds : List Nat) : List (List Val) → Except L
       | .error e => .error e
       | .ok ns => .ok (n :: ns)
 
+
+/-! ## texinfo + texdata (`_lmp_write_texinfo` / `_lmp_read_texinfo`) -/
+
+/-- texture names are numbered; `fold` plays `str.casefold` on the numbers -/
+structure TexDataV where
+  mat : Nat
+  r0 : UInt32
+  r1 : UInt32
+  r2 : UInt32
+  width : Int
+  height : Int
+deriving Repr, DecidableEq
+
+structure TexInfoV where
+  /-- the 16 floats: s_off, s_shift, t_off, t_shift, lightmap … -/
+  f : List UInt32
+  flags : Int
+  /-- object number of the TexData -/
+  td : Nat
+deriving Repr, DecidableEq
+
+/-- what the reader builds: texinfo with its texdata by value -/
+structure TexInfoR where
+  f : List UInt32
+  flags : Int
+  td : TexDataV
+deriving Repr, DecidableEq
+
+def texdataRec (vitamin : Bool) (d : TexDataV) (texIdx : Nat) : List Val :=
+  [.f32 d.r0, .f32 d.r1, .f32 d.r2, .int texIdx, .int d.width, .int d.height]
+    ++ (if vitamin then [] else [.int d.width, .int d.height])
+
+/-- `_lmp_write_texinfo`: (texinfo records, texdata records, texture-name table afterwards).
+The texdata table is keyed on the TexData object (`texdataTable idKey`), its records are written in
+order of first use, and only then `find_or_insert(self.textures, str.casefold)` is asked for the
+name — so the name finder sees the materials in that same order. -/
+def writeTexinfo (vitamin : Bool) (fold : Nat → Nat) (tdv : Nat → TexDataV) (textures : List Nat) (infos : List TexInfoV) :
+    List (List Val) × List (List Val) × List Nat :=
+  let tt := texdataTable idKey (infos.map (·.td))
+  let names := Finder.callAll fold (Finder.mk' fold textures) (tt.2.map (fun o => (tdv o).mat))
+  ((List.zip infos tt.1).map (fun p => (p.1.f.map Val.f32) ++ [.int p.1.flags, .int p.2]),
+   (List.zip tt.2 names.1).map (fun p => texdataRec vitamin (tdv p.1) p.2),
+   names.2.list)
+
+def readTexdata (vitamin : Bool) (textures : List Nat) (r : List Val) : Except LumpErr TexDataV :=
+  if vitamin then
+    match r with
+    | [.f32 a, .f32 b, .f32 c, .int ti, .int w, .int h] =>
+      match pyIdx textures ti with
+      | some m => .ok { mat := m, r0 := a, r1 := b, r2 := c, width := w, height := h }
+      | none => .error .badData
+    | _ => .error .badData
+  else
+    match r with
+    | [.f32 a, .f32 b, .f32 c, .int ti, .int w, .int h, .int vw, .int vh] =>
+      -- `assert vw == w and vh == h`
+      if vw = w ∧ vh = h then
+        match pyIdx textures ti with
+        | some m => .ok { mat := m, r0 := a, r1 := b, r2 := c, width := w, height := h }
+        | none => .error .badData
+      else .error .badData
+    | _ => .error .badData
+
+def readTexdatas (vitamin : Bool) (textures : List Nat) : List (List Val) → Except LumpErr (List TexDataV)
+  | [] => .ok []
+  | r :: rs =>
+    match readTexdata vitamin textures r with
+    | .error e => .error e
+    | .ok d =>
+      match readTexdatas vitamin textures rs with
+      | .error e => .error e
+      | .ok ds => .ok (d :: ds)
+
+def f32sOf : List Val → Option (List UInt32)
+  | [] => some []
+  | .f32 x :: vs => (f32sOf vs).map (x :: ·)
+  | _ => none
+
+/-- Python `l[i]` (negative = from the end) for any list -/
+def pyGet {α : Type} (l : List α) (i : Int) : Option α :=
+  if 0 ≤ i then l[i.toNat]? else if (-i).toNat ≤ l.length then l[l.length - (-i).toNat]? else none
+
+def readTexinfoRec (tds : List TexDataV) (r : List Val) : Except LumpErr TexInfoR :=
+  match f32sOf (r.take 16), r.drop 16 with
+  | some fs, [.int flags, .int ti] =>
+    match pyGet tds ti with
+    | some d => .ok { f := fs, flags := flags, td := d }
+    | none => .error .badData
+  | _, _ => .error .badData
+
+def readTexinfoRecs (tds : List TexDataV) : List (List Val) → Except LumpErr (List TexInfoR)
+  | [] => .ok []
+  | r :: rs =>
+    match readTexinfoRec tds r with
+    | .error e => .error e
+    | .ok x =>
+      match readTexinfoRecs tds rs with
+      | .error e => .error e
+      | .ok xs => .ok (x :: xs)
+
+/-- `_lmp_read_texinfo` -/
+def readTexinfo (vitamin : Bool) (textures : List Nat) (infoRecs dataRecs : List (List Val)) : Except LumpErr (List TexInfoR) :=
+  match readTexdatas vitamin textures dataRecs with
+  | .error e => .error e
+  | .ok tds => readTexinfoRecs tds infoRecs
+
+/-! ## primitives (`_lmp_write_primitives` / `_lmp_read_primitives`): contiguous side arrays, no de-duplication -/
+
+structure PrimV where
+  /-- `is_tristrip`, packed as an integer -/
+  typ : Int
+  indices : List Int
+  /-- vertices as three float bit patterns each -/
+  verts : List (UInt32 × UInt32 × UInt32)
+deriving Repr, DecidableEq
+
+/-- records, PRIMINDICES, PRIMVERTS -/
+def writePrims : List Int → List (UInt32 × UInt32 × UInt32) → List PrimV →
+    List (List Val) × List Int × List (UInt32 × UInt32 × UInt32)
+  | idx, vs, [] => ([], idx, vs)
+  | idx, vs, p :: ps =>
+    let t := writePrims (idx ++ p.indices) (vs ++ p.verts) ps
+    ([.int p.typ, .int idx.length, .int p.indices.length, .int vs.length, .int p.verts.length] :: t.1, t.2)
+
+def readPrim (idx : List Int) (vs : List (UInt32 × UInt32 × UInt32)) (r : List Val) : Except LumpErr PrimV :=
+  match r with
+  | [.int ty, .int fi, .int ni, .int fv, .int nv] =>
+    .ok { typ := ty, indices := (idx.drop fi.toNat).take ni.toNat, verts := (vs.drop fv.toNat).take nv.toNat }
+  | _ => .error .badData
+
+def readPrims (idx : List Int) (vs : List (UInt32 × UInt32 × UInt32)) : List (List Val) → Except LumpErr (List PrimV)
+  | [] => .ok []
+  | r :: rs =>
+    match readPrim idx vs r with
+    | .error e => .error e
+    | .ok p =>
+      match readPrims idx vs rs with
+      | .error e => .error e
+      | .ok ps => .ok (p :: ps)
+
 end C11
